@@ -6,6 +6,7 @@ package transport_test
 // exchanges explicitly, so it knows the order of events.
 
 import (
+	"runtime"
 	"bytes"
 	"context"
 	"errors"
@@ -238,9 +239,22 @@ func TestVfC06Reuse(t *testing.T) {
 				cancel() // the caller has given up before the exchange even starts (e.g. a fallback after the deadline)
 				h.stats.preCancelled++
 			}
+			// callers end their context as soon as they have their answer (`defer cancel()` around the exchange) and go on
+			// using the message: in every other exchange the context is cancelled the moment the call returns, and the
+			// message is looked at a little later
+			cancelOnReturn := rapid.Bool().Draw(t, "cancelOnReturn")
+			lookAfter := time.Duration(rapid.SampledFrom([]int{0, 0, 20, 200}).Draw(t, "lookAfterMicros")) * time.Microsecond
 			go func() {
 				defer close(e.done)
 				m, err := tr.ExchangeContext(ctx, e.query)
+				if cancelOnReturn {
+					cancel()
+					if lookAfter > 0 {
+						time.Sleep(lookAfter)
+					} else {
+						runtime.Gosched()
+					}
+				}
 				e.err = err
 				if m != nil {
 					e.gotMsg = true
@@ -415,7 +429,7 @@ func TestVfC06RespTimeout(t *testing.T) {
 		lateFirst := rapid.Bool().Draw(t, "lateReplyBeforeNextQuery")
 		chunked := rapid.Bool().Draw(t, "chunked")
 		followers := rapid.IntRange(1, 3).Draw(t, "followers")
-		warm := rapid.IntRange(0, 2).Draw(t, "warmConnection") == 0
+		warm := rapid.IntRange(0, 1).Draw(t, "warmConnection") == 0
 		// the reply to exchange 1 may also have begun before the silence: its first 3, 5 or 14 octets, or all but the last
 		// one, arrive at once - the rest only after the response timeout (a reply that was started is not a consumed one)
 		partial := rapid.SampledFrom([]int{0, 0, 3, 5, 14, -1}).Draw(t, "octetsBeforeTheSilence")
@@ -532,10 +546,42 @@ func TestVfC06RespTimeout(t *testing.T) {
 			reply(q1, 1001, chunked)
 		}
 		var a1 answer
-		select {
-		case a1 = <-ch1:
-		case <-time.After(16 * time.Second): // 6 s, plus 6 s more when a reused connection is retried on a fresh one
-			vfkit.Inconclusive("C06 timeout: exchange 1 did not time out within 16 s")
+		// When exchange 1 went out on a connection reused from the pool, its time-out there is a failure of that
+		// connection: the transport asks again on a new one. In half of those cases the server answers that second query
+		// at once (it is healthy, only the old connection is stuck), and then exchange 1 has to succeed.
+		retryAnswered := warm && rapid.Bool().Draw(t, "retryOnTheNewConnectionIsAnswered")
+		if retryAnswered {
+			answered := false
+			got := false
+			for until := time.Now().Add(16 * time.Second); time.Now().Before(until) && !got; {
+				select {
+				case a1 = <-ch1:
+					got = true
+				case <-time.After(2 * time.Millisecond):
+				}
+				if answered || got {
+					continue
+				}
+				poll()
+				for _, sq := range seen {
+					if sq.tok == 1 && sq.conn != q1.conn {
+						reply(sq, 1001, chunked)
+						answered = true
+					}
+				}
+			}
+			if !got {
+				vfkit.Inconclusive("C06 timeout: exchange 1 did not return within 16 s")
+			}
+			if !a1.gotMsg {
+				t.Fatalf("exchange 1 was written to a connection reused from the pool, which stayed silent until the response time-out; the server answers on new connections at once (retry query seen on a new connection: %v), yet the exchange failed: %v", answered, a1.err)
+			}
+		} else {
+			select {
+			case a1 = <-ch1:
+			case <-time.After(16 * time.Second): // 6 s, plus 6 s more when a reused connection is retried on a fresh one
+				vfkit.Inconclusive("C06 timeout: exchange 1 did not time out within 16 s")
+			}
 		}
 		// a reused connection that timed out is retried on a new one: serve that retry silently too (it times out as well)
 		check(a1, 1, 11)
